@@ -369,7 +369,21 @@ impl<'a> Gen<'a> {
     fn cmp(&mut self) -> Expression {
         use BinOpType::*;
         let op = *self.rng.pick(CMP_OPS);
-        match self.rng.below(12) {
+        match self.rng.below(13) {
+            12 => {
+                // both sides derived from the SAME register by constant offsets: (R + k1) cmp (R + k2).
+                // The truth value depends on wrap-around for entry values in a tiny window, so the constants
+                // that put R into that window join the pool the initial states are biased around.
+                let r = self.reg();
+                let k1 = *self.rng.pick(&[1i64, 2, 5, 8, 16, -1, -4]);
+                let k2 = *self.rng.pick(&[3i64, 10, 7, 24, -2, -8, 0]);
+                for k in [k1, k2] {
+                    self.consts.push(k.wrapping_neg());
+                    self.consts.push(i64::MAX.wrapping_sub(k).wrapping_add(1));
+                }
+                let side = |k: i64| if k == 0 { e_reg(r) } else { e_bin(IntAdd, e_reg(r), e_const(k, 8)) };
+                e_bin(op, side(k1), side(k2))
+            }
             0..=3 => e_bin(op, e_reg(self.reg()), e_const(self.c(), 8)),
             4 | 5 => e_bin(op, e_const(self.c(), 8), e_reg(self.reg())),
             6 => e_bin(op, e_reg(self.reg()), e_reg(self.reg())),
